@@ -517,7 +517,7 @@ func main() {
 		return sc
 	}
 	for _, x := range []cs{
-		{"rotation", 2, quickLen(scripts["rotation"], 4), nil},
+		{"rotation", 2, quickLen(scripts["rotation"], 5), nil}, // two rotations: a block popped while a state write is in flight can be handed out again
 		{"shared-sectors", 2, quickLen(scripts["shared-sectors"], 4), nil},
 		// 16-byte blocks: several uploads share a block, so an upload can complete while the sync covering its
 		// block's earlier content is in flight
